@@ -51,9 +51,14 @@ fn cost_val() -> BoxedStrategy<i64> {
     prop_oneof![12 => -500i64..9000, 3 => select(vec![-32769i64, -32768, -1, 0, 32767, 32768, 65535, 65536])].boxed()
 }
 
+/// parts of speech that differ from ones of the dictionary (or from each other) only in the conjugation columns
+const POS_NOUN_CONJ_A: &str = "名詞,普通名詞,一般,*,活用甲,*";
+const POS_NOUN_CONJ_B: &str = "名詞,普通名詞,一般,*,*,終止形";
+const POS_SYM_CONJ: &str = "補助記号,一般,*,*,活用甲,終止形";
+
 fn pos_choice() -> BoxedStrategy<(Pos, Option<bool>)> {
     // present in the dictionary / absent, userPOS allow / forbid / missing
-    (prop_oneof![6 => select(vec![POS_NOUN, POS_SYM]), 1 => select(vec![POS_PLUGIN, POS_USER2])], select(vec![None, Some(true), Some(false)])).prop_map(|(p, u)| (pos_from_str(p), u)).boxed()
+    (prop_oneof![6 => select(vec![POS_NOUN, POS_SYM]), 1 => select(vec![POS_PLUGIN, POS_USER2]), 1 => select(vec![POS_NOUN_CONJ_A, POS_NOUN_CONJ_B, POS_SYM_CONJ])], select(vec![None, Some(true), Some(false)])).prop_map(|(p, u)| (pos_from_str(p), u)).boxed()
 }
 
 /// (load must succeed?, is in the input class of known finding F6a?)
@@ -194,7 +199,7 @@ impl Property for C20 {
         dims.prop_flat_map(|(nl, nr)| {
             let simple = (boundary(nr), boundary(nl), cost_val(), pos_choice()).prop_map(|(left, right, cost, (pos, user_pos))| Plug::Simple { left, right, cost, pos, user_pos });
             let regex = (boundary(nr), boundary(nl), cost_val(), pos_choice()).prop_map(|(left, right, cost, (pos, user_pos))| Plug::Regex { left, right, cost, pos, user_pos });
-            let line = (select(vec!["DEFAULT", "KANJI", "ALPHA", "NUMERIC", "KATAKANA", "HIRAGANA"]), boundary(nr), boundary(nl), cost_val(), prop_oneof![6 => select(vec![POS_NOUN, POS_SYM]), 1 => Just(POS_PLUGIN)])
+            let line = (select(vec!["DEFAULT", "KANJI", "ALPHA", "NUMERIC", "KATAKANA", "HIRAGANA"]), boundary(nr), boundary(nl), cost_val(), prop_oneof![6 => select(vec![POS_NOUN, POS_SYM]), 1 => Just(POS_PLUGIN), 2 => select(vec![POS_NOUN_CONJ_A, POS_NOUN_CONJ_B, POS_SYM_CONJ])])
                 .prop_map(|(cat, left, right, cost, pos)| UnkLine { cat: cat.to_string(), left, right, cost, pos: pos_from_str(pos) });
             let mecab = (vec(line, 1..=4), select(vec![None, Some(true), Some(false)])).prop_map(|(lines, user_pos)| Plug::Mecab { lines, user_pos });
             let cells = vec((0..nl, 0..nr, costs()), 0..8);
@@ -272,12 +277,32 @@ impl Property for C20 {
                 // (ii) analysis never leaves the matrix (debug assertions in connect.rs are the monitor)
                 let mut texts = case.texts.clone();
                 texts.extend(["a1。京都".to_string(), "アイウ漢字ab12".to_string(), "1a".to_string()]);
+                // (iii) an unknown word carries a part of speech some configured provider / unk.def line declares
+                let mut declared: Vec<Pos> = Vec::new();
+                for p in &case.oov {
+                    match p {
+                        Plug::Simple { pos, .. } | Plug::Regex { pos, .. } => declared.push(pos.clone()),
+                        Plug::Mecab { lines, .. } => declared.extend(lines.iter().map(|l| l.pos.clone())),
+                    }
+                }
                 for t in &texts {
                     for mode in MODES {
-                        let r = guarded(|| analyze(&dict, t, mode, None).map(|ml| consume_all(&dict, &ml, false)));
-                        if let Err(p) = r {
-                            rep.fail(&format!("analysis-panic:{}", panic_site(&p)), format!("accepted configuration, text {:?}: {}", t, p));
-                            return rep;
+                        let r = guarded(|| {
+                            analyze(&dict, t, mode, None).map(|ml| {
+                                consume_all(&dict, &ml, false);
+                                ml.iter().filter(|m| m.is_oov()).map(|m| m.part_of_speech().to_vec()).find(|p| !declared.iter().any(|d| d.to_vec() == *p))
+                            })
+                        });
+                        match r {
+                            Err(p) => {
+                                rep.fail(&format!("analysis-panic:{}", panic_site(&p)), format!("accepted configuration, text {:?}: {}", t, p));
+                                return rep;
+                            }
+                            Ok(Ok(Some(p))) => {
+                                rep.fail("oov-pos-not-declared", format!("text {:?}: an unknown word carries the part of speech {:?}, declared are {:?}", t, p, declared));
+                                return rep;
+                            }
+                            _ => {}
                         }
                     }
                 }
